@@ -6,6 +6,7 @@ from ..common import norm_stmt
 from ..deps import names_in
 from ..index import ClassInfo, AnalysisError
 from .c03 import is_abstract
+from . import c01 as _c01
 
 # reads in fit that are not fitted state of an earlier fit (one symbol per
 # line, with the reason)
@@ -67,7 +68,7 @@ def _rest(p, report, tier):
     # ---- R13.3
     sw = p.get_class("SlidingWindowClassifier")
     names = ("X_train_", "y_train_", "sample_weight_train_")
-    add = sw.methods.get("_add_samples")
+    add = _c01.method_by_role(sw, "_add_samples", lambda n: any(isinstance(c, ast.Call) and isinstance(c.func, ast.Attribute) and c.func.attr == "extend" for c in ast.walk(n)))
     if add is None:
         raise AnalysisError("SlidingWindowClassifier._add_samples vanished")
     # every deque creation for the three attributes has maxlen=self.window_size
@@ -102,7 +103,7 @@ def _rest(p, report, tier):
            and n.func.attr == "extend" and isinstance(n.func.value, ast.Attribute) and isinstance(n.func.value.value, ast.Name)
            and n.func.value.value.id == "self"}
     # the newest samples win: a batch is never cut from its head before it enters the windows
-    add = sw.methods.get("_add_samples")
+    add = _c01.method_by_role(sw, "_add_samples", lambda n: any(isinstance(c, ast.Call) and isinstance(c.func, ast.Attribute) and c.func.attr == "extend" for c in ast.walk(n)))
     heads = []
     if add is not None:
         for n in ast.walk(add.node):
